@@ -202,7 +202,7 @@ def until_close_app(tokens):
 
 def build_session(r, kinds=None, ncmd=None, want_match=None):
     size = (r.choice([8, 16, 24]), r.choice([8, 12]))
-    spec = Spec([], delay=r.choice(DELAYS), warp=r.choice(WARPS), incremental=(r.random() < .3), nocursor=(r.random() < .3), size=size)
+    spec = Spec([], delay=r.choice(DELAYS), warp=r.choice(WARPS), incremental=(r.random() < .45), nocursor=(r.random() < .4), size=size)
     sess = Session(spec.pf)
     # expected images: some equal to a future screen, some different
     target_px = [rand_rgb(r) for _ in range(size[0] * size[1])]
@@ -309,6 +309,11 @@ def drive(r, spec, respond="random", faults=None, max_steps=80):
                         _, more = gen_update(r, spec.sess, spec.size, kinds=["raw", "rre", "hextile"], full=(r.random() < .5))
                         more = [m for m in more]
                         rects += more
+                    msg = spec.sess.update(rects)
+                elif spec.nocursor and r.random() < .15:
+                    # an update that carries nothing but a cursor shape (with --nocursor the shape is not drawn, but the
+                    # update is an update like any other: it completes, and whoever waits is told)
+                    rects = [enc_cursor(r, spec.pf, r.randrange(3), r.randrange(3), r.choice([1, 4, 9]), r.choice([1, 3]))]
                     msg = spec.sess.update(rects)
                 elif r.random() < .08:
                     rects = []
